@@ -283,6 +283,11 @@ class C02(Plan):
                 j += conc_jobs("dbg", scen, 48, seed, p, delay=0, nshards=1, first0=30 * 10 ** 6, forced=True)
                 j += conc_jobs("asan", scen, 24, seed, p, delay=0, nshards=1, first0=31 * 10 ** 6, forced=True)
                 j += miri_conc_jobs(scen, 8, 6, seed, p, first0=32 * 10 ** 6, extra_flags=PREEMPT)
+            # payloads without drop glue (plain data, slices, str): plain reads versus the last owner's deallocation
+            j += conc_jobs("dbg", "plaindrop", 1400, seed, p, delay=1, nshards=1, first0=40 * 10 ** 6)
+            j += conc_jobs("tsan", "plaindrop", 2800, seed, p, delay=1, nshards=2, first0=41 * 10 ** 6)
+            j += conc_jobs("asan", "plaindrop", 700, seed, p, delay=2, nshards=1, first0=42 * 10 ** 6)
+            j += miri_conc_jobs("plaindrop", 14, 7, seed, p, first0=43 * 10 ** 6, extra_flags=PREEMPT)
         else:
             j += conc_jobs("dbg", "clonedrop", 300000, seed, p, delay=1, nshards=8)
             j += conc_jobs("rel", "clonedrop", 300000, seed, p, delay=2, nshards=8, first0=10 ** 6)
@@ -296,6 +301,11 @@ class C02(Plan):
                 j += conc_jobs("dbg", scen, 2000, seed, p, delay=0, nshards=8, first0=30 * 10 ** 6, forced=True, timeout=3000)
                 j += conc_jobs("asan", scen, 800, seed, p, delay=0, nshards=8, first0=31 * 10 ** 6, forced=True, timeout=3000)
                 j += miri_conc_jobs(scen, 128, 6, seed, p, first0=32 * 10 ** 6, extra_flags=PREEMPT)
+            j += conc_jobs("dbg", "plaindrop", 70000, seed, p, delay=1, nshards=4, first0=40 * 10 ** 6)
+            j += conc_jobs("rel", "plaindrop", 70000, seed, p, delay=2, nshards=4, first0=44 * 10 ** 6)
+            j += conc_jobs("tsan", "plaindrop", 140000, seed, p, delay=1, nshards=8, first0=41 * 10 ** 6, timeout=3000)
+            j += conc_jobs("asan", "plaindrop", 28000, seed, p, delay=2, nshards=4, first0=42 * 10 ** 6, timeout=3000)
+            j += miri_conc_jobs("plaindrop", 140, 7, seed, p, first0=43 * 10 ** 6, extra_flags=PREEMPT)
         return j
 
     def coverage(self, counts, sets, samples, other, results):
@@ -313,13 +323,14 @@ class C02(Plan):
             forced_preemption_runs=counts.get("conc.forced_runs", 0),
             count_events=counts.get("conc.count_events", 0),
             payload_reads=counts.get("conc.payload_reads", 0),
+            no_drop_glue_payload_executions=sub(counts, "conc.plaindrop."),
             miri_seeds=sum(1 for r in results if r.job.mode == "miri"),
             tsan_executions=sum(rec.get("counts", {}).get("conc.clonedrop", 0) for r in results if r.job.mode == "tsan" for rec in r.records if rec.get("t") == "stats"),
             hooked=bool(other.get("hooked")),
         )
 
     def required(self, counts, sets, other):
-        miss = need(counts, ["conc.destroyer.t0", "conc.destroyer.t1", "conc.destroyer.t2", "conc.destroyer.t3"])
+        miss = need(counts, ["conc.destroyer.t0", "conc.destroyer.t1", "conc.destroyer.t2", "conc.destroyer.t3", "conc.plaindrop.Arc<str>", "conc.plaindrop.ThinArc<u64,u64>"])
         if not other.get("hooked"):
             miss.append("count hook not active")
         return miss
